@@ -732,6 +732,8 @@ class Interp:
                        self.eval(sl.upper, fr) if sl.upper is not None else None)
         else:
             k = self.eval(sl, fr)
+        if isinstance(base, Obj) and "__setitem__" in base.attrs:
+            return self.call(base.attrs["__setitem__"], [k, v], {})
         if isinstance(k, SliceV):
             if isinstance(base, Obj) and base.node is not None:
                 hit = self.repo.find_method(base.mod, base.node, "__setitem__")
@@ -1157,6 +1159,8 @@ class Interp:
             hi = self.eval(e.slice.upper, fr) if e.slice.upper is not None else None
             if e.slice.step is not None:
                 raise NotInFragment(f"slice step {norm(e)}")
+            if isinstance(base, Obj) and "__getitem__" in base.attrs:
+                return self.call(base.attrs["__getitem__"], [SliceV(lo, hi)], {})
             if isinstance(base, Obj) and base.node is not None:
                 hit = self.repo.find_method(base.mod, base.node, "__getitem__")
                 if hit:
@@ -1197,6 +1201,8 @@ class Interp:
             return base.rows[self._index(k, len(base.rows), node)]
         if isinstance(base, str):
             return base[self._index(k, len(base), node)]
+        if isinstance(base, Obj) and "__getitem__" in base.attrs:
+            return self.call(base.attrs["__getitem__"], [k], {})
         if isinstance(base, Obj) and base.node is not None:
             hit = self.repo.find_method(base.mod, base.node, "__getitem__")
             if hit:
@@ -1494,12 +1500,28 @@ def _b_isinstance(it, args, kw):
     names = {repr_type(x) for x in ts}
     if isinstance(v, Unknown):
         return it.decide(f"isinstance({v.tag}, {sorted(names)})")
+    if isinstance(v, (BoundBuiltin, FuncV, ClassV)):
+        return bool(names & {"type", "object"})
     if isinstance(v, str):
         return "str" in names
     if isinstance(v, bool):
         return bool(names & {"bool", "int"})
     if is_num(v):
-        return bool(names & {"int", "float", "np.float64", "float64", "number", "Number"}) if not ("int" in names and "float" not in names) else it.decide(f"isinstance({v!r}, int)")
+        numeric = {"float", "np.float64", "float64", "number", "Number", "floating"}
+        if names & numeric and "int" in names:
+            return True
+        if v.is_const():
+            integral = v.const_value().denominator == 1
+            if "int" in names and integral:
+                return True
+            if names & numeric:
+                return True if not integral else it.decide(f"isinstance({v!r}, float)") if "int" not in names and False else bool(names & numeric)
+            return False
+        if names & numeric and "int" not in names:
+            return True
+        if "int" in names:
+            return it.decide(f"isinstance({v!r}, int)")
+        return False
     if isinstance(v, list):
         return "list" in names
     if isinstance(v, tuple):
@@ -1590,6 +1612,18 @@ def _b_type(it, args, kw):
     return Unknown("type")
 
 
+def _b_ord(it, args, kw):
+    if isinstance(args[0], str) and len(args[0]) == 1:
+        return num(ord(args[0]))
+    return Unknown("ord")
+
+
+def _b_chr(it, args, kw):
+    if is_num(args[0]) and args[0].is_const():
+        return chr(int(args[0].const_value()))
+    return Unknown("chr")
+
+
 def _b_filter(it, args, kw):
     f, xs = args
     return [x for x in it.iterate(xs) if it.truth(it.call(f, [x], {}) if f is not None else x)]
@@ -1645,7 +1679,7 @@ BUILTINS: Dict[str, Any] = {k: BoundBuiltin(v) for k, v in {
     "round": _b_round, "bool": _b_bool, "isinstance": _b_isinstance, "sum": _b_sum, "any": _b_any,
     "all": _b_all, "list": _b_list, "tuple": _b_tuple, "dict": _b_dict, "set": _b_set, "str": _b_str,
     "type": _b_type, "filter": _b_filter, "reversed": _b_reversed, "print": _b_print,
-    "getattr": _b_getattr, "setattr": _b_setattr, "hasattr": _b_hasattr,
+    "getattr": _b_getattr, "setattr": _b_setattr, "hasattr": _b_hasattr, "ord": _b_ord, "chr": _b_chr,
 }.items()}
 for _n in ("Exception", "ValueError", "TypeError", "IndexError", "KeyError", "NotImplementedError",
            "AttributeError", "ZeroDivisionError", "RuntimeError", "AssertionError", "StopIteration"):
